@@ -77,12 +77,18 @@ func res(v interface{}, err error) string {
 func (o *c17op) exec(e *c17env) (out string) {
 	e.c.opSteps = 0 // (in the concurrent phase this makes the bound apply to the tasks' interleaved steps since the last operation start)
 	defer func() {
-		if r := recover(); r != nil {
+		r := recover()
+		gp, gn := e.c.afterCall() // (sequential phase: lets the goroutines the operation started run on)
+		if r != nil {
 			if _, ok := r.(stepLimit); ok {
 				out = "STEP-LIMIT"
 				return
 			}
 			out = fmt.Sprintf("PANIC: %v", r)
+		} else if gp != "" {
+			out = "PANIC in a goroutine: " + gp
+		} else if gn {
+			out = "STEP-LIMIT"
 		}
 	}()
 	S, SS := e.S, e.SS
@@ -462,8 +468,11 @@ func loadFacts() {
 		s3Enabled = false
 		s3Note = fmt.Sprintf("S3 switched off: the instrumented package uses synchronisation primitives (%v, %d go statements, %d select) which the package-state rule does not model; S1/S2/S4/S5 remain armed; Mutex/RWMutex Lock/RLock and Once.Do are rewritten to cooperative versions", facts.SyncUses, facts.GoStmts, facts.SelectStmts)
 	}
-	if facts.GoStmts > 0 {
-		s3Note += "; the package starts goroutines of its own: hooks are serialised by a mutex, real locks are used, runs are not replayable bit for bit and the determinism self-check is skipped"
+	if facts.GoStmts > 0 && len(facts.Unmodelled) == 0 {
+		s3Note += "; the package starts goroutines of its own: each is one more cooperative task of the seeded scheduler (go, WaitGroup, channel operations and locks are rewritten), runs replay exactly"
+	}
+	if facts.GoStmts > 0 && len(facts.Unmodelled) > 0 {
+		s3Note += "; the package starts goroutines of its own AND blocks in ways the scheduler does not model: its goroutines are real, hooks are serialised by a mutex, real locks are used, runs are not replayable bit for bit and the determinism self-check is skipped"
 	}
 	if len(facts.Unmodelled) > 0 {
 		noPreemption = true
@@ -681,6 +690,9 @@ func runC17(c *Ctx) *Violation {
 		if curPol == nil {
 			return nil
 		}
+		if c.amb != nil && c.amb.cur != nil && c.amb.cur.child {
+			return c.amb.cur.childPol(curPol).order(site, n)
+		}
 		return curPol.order(site, n)
 	}
 
@@ -690,6 +702,9 @@ func runC17(c *Ctx) *Violation {
 	for i, p := range progs {
 		pols[i].reset()
 		curPol = pols[i]
+		if c.amb != nil {
+			c.amb.tasks[0].nspawned = 0 // goroutines started by this task's operations are numbered as in the concurrent phase
+		}
 		for _, o := range p {
 			before := c.Steps
 			c.Eval()
@@ -743,6 +758,9 @@ func runC17(c *Ctx) *Violation {
 	c.mapOrderFn = func(site, n int) []int {
 		if s.cur == nil {
 			return nil
+		}
+		if s.cur.child {
+			return s.cur.childPol(pols[s.cur.root]).order(site, n)
 		}
 		return pols[s.cur.id].order(site, n)
 	}
